@@ -79,7 +79,8 @@ def check_value(name, v, phi, out, ctx):
     if not isinstance(v, (float, np.floating)) or math.isnan(v):
         out.append(viol("%s:not-a-number" % name, "%s returned %r for %s" % (name, v, ctx)))
         return "bad"
-    if abs(v) > math.pi + 1e-12:
+    # the float -math.pi (-3.141592653589793) is larger than the real number -pi, so it lies inside (-pi, pi]; any float beyond +-math.pi lies outside
+    if abs(v) > math.pi:
         out.append(viol("%s:out-of-range" % name, "%s returned %r outside (-pi, pi] for %s" % (name, v, ctx)))
         return "bad"
     tol = 1e-6 if abs(abs(phi) - math.pi) < 1e-3 else 1e-9
